@@ -4,6 +4,7 @@ from ..mon import gt_hex
 from ..rm import q, r, F1, F2, h32
 
 ID = 'C03'
+PERTURB = (8, 80)      # cases re-run in the repeat / parallel perturbation passes (quick, thorough)
 RULE = ('grid cases: one pair (a, b) and every combination of representations of P = aG1 and Q = bG2 from {z=1, library Jacobian, '
         'lambda-rescaled, library scalar multiplication, normalised library Jacobian} plus the three identity forms on either side, '
         'through pairing(), fast_pairing() and G2Prepared::pairing(): all values must be byte-identical and equal to the model value '
